@@ -41,6 +41,11 @@ func (cl *Cluster) VerifAddMember(m *consensus.Member, applied bool) error {
 }
 func (cl *Cluster) VerifRemoveMember(m *consensus.Member) error { return cl.removeMember(m) }
 
+// VerifCreateSnapshotData is ChainSnapshotter.createSnapshotData (it only uses its arguments).
+func VerifCreateSnapshotData(cl *Cluster, b *types.Block, cs *raftpb.ConfState) (*consensus.SnapshotData, error) {
+	return (&ChainSnapshotter{}).createSnapshotData(cl, b, cs)
+}
+
 func VerifMarshalEntryData(b *types.Block) ([]byte, error) { return marshalEntryData(b) }
 
 // VerifQuiet raises the package logger's threshold: refused requests are logged at error level,
